@@ -8,6 +8,11 @@ id_spec is carried in cases as a tagged, JSON-able description:
     {"form": "str",  "v": "ID" | ":seqid:"}   one attribute name or one ':column:' spec
     {"form": "list", "v": ["ID", "Name", ":source:"]}
     {"form": "dict", "v": {"gene": "ID", "exon": ["Name", "Alias"]}}
+        optional "cls": the dict (sub)class handed over - "dict" (default) | "ordered" (collections.OrderedDict) |
+        "subclass" (class D(dict): pass) | "defaultdict" (with "default": the entry its default_factory returns) |
+        "missing" (dict subclass with __missing__; "missing": {featuretype: entry} it computes, KeyError otherwise) |
+        "getitem" (dict subclass whose __getitem__ / get / __contains__ alias featuretypes: "alias": {featuretype: item key})
+        The per-featuretype entry is whatever the dict gives for that featuretype (dict_entry below).
     {"form": "callable", "v": <name in CALLABLES>}
 """
 COLUMNS = ("seqid", "source", "featuretype", "start", "end", "score", "strand", "frame")
@@ -90,6 +95,11 @@ def view_of(rec):
     return v
 
 
+def looks_special(v):
+    """Text that would mean something as the return value of a callable id_spec or as an id_spec entry."""
+    return v.lower().startswith("autoincrement") or (len(v) > 2 and v[0] == ":" and v[-1] == ":")
+
+
 def column_of(k):
     """':seqid:' -> 'seqid'; None when k is an attribute name."""
     if len(k) > 2 and k[0] == ":" and k[-1] == ":" and k[1:-1] in COLUMNS:
@@ -97,12 +107,40 @@ def column_of(k):
     return None
 
 
+def dict_entry(spec, ft):
+    """The entry a dict id_spec gives for featuretype ft -> (entry | None when the dict has none, how it was supplied)."""
+    v = spec["v"]
+    cls = spec.get("cls") or "dict"
+    if cls == "getitem":
+        ft = (spec.get("alias") or {}).get(ft, ft)
+        return (v[ft], "aliasing __getitem__") if ft in v else (None, "no item")
+    if ft in v:
+        return v[ft], "item"
+    if cls == "defaultdict":
+        return spec["default"], "default_factory"
+    if cls == "missing":
+        m = spec.get("missing") or {}
+        if ft in m:
+            return m[ft], "__missing__"
+        return None, "__missing__ raised KeyError"
+    return None, "no item"
+
+
 class Deriver(object):
     """Keys in input order; own counters.  key(rec) -> (key, branch) | raises MultiValued / Silent."""
 
     def __init__(self, spec, fmt):
-        self.spec = default_spec(fmt) if spec["form"] == "none" else spec
+        self.fmt = fmt
+        self.use(spec)
         self.counters = {}
+        self.stats = {}     # what the derivation exercised (dict subclasses, special-looking attribute values)
+
+    def use(self, spec):
+        """(Re)set the id_spec; the counters go on (create_db, then update() under another id_spec)."""
+        self.spec = default_spec(self.fmt) if spec["form"] == "none" else spec
+
+    def _stat(self, name):
+        self.stats[name] = self.stats.get(name, 0) + 1
 
     def fresh(self, base):
         n = self.counters.get(base, 0) + 1
@@ -117,6 +155,8 @@ class Deriver(object):
             if r is None:
                 return self.fresh(ft), "callable:None->fallback"
             if r.startswith(AUTO):
+                if any(r in vals for vals in attrs_of(rec).values()):
+                    self._stat("attribute text 'autoincrement:X' returned by a callable: X_n")
                 return self.fresh(r[len(AUTO):]), "callable:autoincrement"
             return r, "callable:string"
         if spec["form"] == "str":
@@ -124,9 +164,11 @@ class Deriver(object):
         elif spec["form"] == "list":
             listed, miss = list(spec["v"]), "fallback"
         elif spec["form"] == "dict":
-            if ft not in spec["v"]:
+            e, how = dict_entry(spec, ft)
+            if (spec.get("cls") or "dict") != "dict":
+                self._stat("dict %s: %s" % (spec["cls"], how))
+            if e is None:
                 return self.fresh(ft), "dict:no entry->fallback"
-            e = spec["v"][ft]
             listed, miss = ([e] if isinstance(e, str) else list(e)), "dict:entry absent->fallback"
         else:
             raise ValueError(spec)
@@ -141,6 +183,8 @@ class Deriver(object):
                     raise MultiValued(k)
                 if len(vals) == 0:
                     raise Silent("listed attribute %r present without a value" % k)
+                if looks_special(vals[0]):
+                    self._stat("attribute value that looks like a callable's special return value is the key")
                 return vals[0], ("attribute#%d" % min(pos, 2))
         return self.fresh(ft), miss
 
